@@ -402,8 +402,8 @@ class Installer:
     def should_preserve_existing_file(self, from_file: str, to_file: str) -> bool:
         if not self.options.only_changed:
             return False
-        # Always replace danging symlinks
-        if os.path.islink(from_file) and not os.path.isfile(from_file):
+        # Always replace dangling symlinks (in the source or already installed)
+        if (os.path.islink(from_file) and not os.path.isfile(from_file)) or not os.path.exists(to_file):
             return False
         from_time = os.stat(from_file).st_mtime
         to_time = os.stat(to_file).st_mtime
@@ -418,8 +418,8 @@ class Installer:
         # copyfile fails if the target file already exists, so remove it to
         # allow overwriting a previous install. If the target is not a file, we
         # want to give a readable error.
-        if os.path.exists(to_file):
-            if not os.path.isfile(to_file):
+        if os.path.lexists(to_file):
+            if not os.path.isfile(to_file) and not os.path.islink(to_file):
                 raise MesonException(f'Destination {to_file!r} already exists and is not a file')
             if self.should_preserve_existing_file(from_file, to_file):
                 append_to_log(self.lf, f'# Preserving old file {to_file}\n')
